@@ -191,6 +191,12 @@ def data():
                                                Println(Un("-", Bin("-", Un("-", V("big")), V("one"))))])
     out["division_signs"] = prog([Let("a", "int", Call("t", I(-7))), Let("b", "int", Call("t", I(2))), Println(Bin("/", V("a"), V("b"))), Println(Bin("%", V("a"), V("b"))),
                                   Println(Bin("/", V("b"), V("a"))), Println(Bin("%", V("b"), V("a"))), Println(Bin("/", Un("-", V("a")), Un("-", V("b")))), Println(Bin("%", V("a"), Un("-", V("b"))))])
+    out["string_builtins"] = prog([Let("s", "string", Bin("+", S("hello "), S("world"))), Println(Call("str_substring", V("s"), I(0), I(5))), Println(Call("str_substring", V("s"), I(6), I(50))),
+                                   Println(Call("str_substring", V("s"), I(11), I(2))), Println(Call("str_contains", V("s"), S("lo w"))), Println(Call("str_contains", V("s"), S(""))),
+                                   Println(Call("str_contains", V("s"), S("xyz"))), Println(Call("str_equals", V("s"), S("hello world"))), Println(Call("char_at", V("s"), I(1))),
+                                   Println(Call("string_from_char", I(65))), Println(Bin("+", Call("string_to_int", S("123")), I(1))), Println(Call("string_to_int", S("-45"))),
+                                   Println(Call("string_to_int", Call("int_to_string", I(987654321012)))),
+                                   Let("n", "int", I(0), True), For("i", I(0), Call("str_length", V("s")), [If(Bin("==", Call("char_at", V("s"), V("i")), I(111)), [Set("n", Bin("+", V("n"), I(1)))], [])]), Println(V("n"))])
     out["if_expr_block"] = prog([Let("k", "int", I(5)), Println(IfX(Bin(">", V("k"), I(3)), I(1), I(2)))])
     out["exit_codes"] = prog([Println(S("bye"))], ret=300)
     out["assert_fail_runtime"] = prog([Println(S("before")), Assert(Bin("==", Call("t", I(1)), I(2))), Println(S("after"))])
